@@ -3,7 +3,7 @@
    sumbool, sumor; andb/orb inlined).  Z, N, positive, nat stay inductive. *)
 Require Extraction.
 Require Import ExtrOcamlBasic.
-From KV Require Import Base Hash Model Helpers.
+From KV Require Import Base Hash Model Helpers Spec.
 
 Extraction "kvmodel.ml"
   Z.add Z.mul Z.sub Z.div_eucl Z.compare Z.of_nat Z.to_nat Z.of_N Z.to_N Z.eqb Z.ltb Z.leb
@@ -15,4 +15,8 @@ Extraction "kvmodel.ml"
   find_by_offset find_by_count find_by_size find_by_age find_updates find_deletes
   log_delete_multi trim_multi full_scan scan_fuel
   seg_log_size idx_size hdr_size item_size
-  index_consume index_get index_time seg_consume seg_get.
+  index_consume index_get index_time seg_consume seg_get
+  empty_log spec_publish check_publish check_next check_consume check_get check_get_consume_agree
+  check_get_by_key check_consume_by_key check_get_by_time check_delete spec_delete check_delete_multi
+  check_stat_count check_find_by_offset check_find_by_count check_find_by_size check_find_by_age
+  check_find_updates check_find_deletes check_latest_preserved check_scan mono_times rec_size.
